@@ -71,6 +71,9 @@ pub fn gen_history(rng: &mut Rng) -> (CtxSpec, Vec<String>) {
         // fields named like built-in functions, selected (not called) on maps that lack them, next to
         // calls of those functions: what a selection yields does not depend on what ran before
         "req.size", "req.auth.contains", "[req.size, size(xs)]", "has(req.size)", "[req.matches, req.auth.startsWith]", "req.meta.string", "size(xs) + size(ys)", "xs.contains(n)",
+        // ranges written entirely as literals, of the same shape in several programs (a cache of
+        // constant ranges keyed by anything less than the range itself confuses them)
+        "[1, 2, 3].map(x, x * 2)", "[5, 6].map(x, x * 2)", "[7].map(x, x * 2)", "[].map(x, x * 2)", "{1: 2}.map(e, e)", "{3: 4}.map(e, e)", "[1, 2, 3].filter(x, x > 1)", "[9, 0].filter(x, x > 1)", "['a'].all(x, x == 'a')", "['b'].all(x, x == 'a')",
         // a name that is a macro variable in one place and the scope's own variable in another
         "k + 1", "[1, 2].map(k, k * 2) + [k]", "xs.map(x, x + k)", "[5].exists(k, k > 2) ? k : 0 - k", "[k, k + 1].filter(k, k > 3) + [k]", "xs.all(k, k >= 0) && k >= 0",
     ];
